@@ -382,10 +382,10 @@ theorem tail_spec (E : Env n) (st : SrcSt n) (h : Fwd E st) :
       refine ⟨rfl, by rw [hex2, hm]; rfl, ?_⟩
       refine ⟨?E', ?h1, ?h2⟩
       case h1 =>
-        simp only [show refNode.next = [.whereEqMin "V" "D" "D" "S"] from rfl, execs, exec, hD, hS, hmin, hm]
+        simp only [show refNode.next = [.whereEqMinIn "V" "D" "D" "S" "S"] from rfl, execs, exec, hD, hS, hmin, hm]
         rfl
       case h2 =>
-        exact ⟨⟨hD, hNP, hP, hQ, hq, hG1, hS, hqn⟩, by simp [eF_inj], ⟨rfl, rfl, rfl, rfl⟩⟩
+        exact ⟨⟨hD, hNP, hP, hQ, hq, hG1, hS, hqn⟩, by simp [eF_inj, Bool.and_comm], ⟨rfl, rfl, rfl, rfl⟩⟩
 
 /-- `while True: …` is `weiLoop` -/
 theorem while_spec : ∀ (fuel : ℕ) (E : Env n) (st : SrcSt n) (V : List (Fin n)), Fwd E st → E.lst "V" = some V →
